@@ -11,6 +11,7 @@ pub mod hexio;
 pub mod asm;
 pub mod annot;
 pub mod expr;
+pub mod peg;
 
 pub fn unhex(s: &str) -> Vec<u8> {
     if s == "-" {
@@ -70,6 +71,9 @@ pub fn dispatch(fields: &[&str]) -> String {
             return r;
         }
         if let Some(r) = expr::dispatch(cmd, args) {
+            return r;
+        }
+        if let Some(r) = peg::dispatch(cmd, args) {
             return r;
         }
         format!("err:unknown-command:{}", cmd)
